@@ -46,7 +46,7 @@ def run(tier):
         regfile = os.path.join(DIR, f"{name}.regions.json")
         with open(regfile, "w") as f:
             f.write(json.dumps({"len": len(data), "regions": [{"name": k, "s": s, "e": e} for k, (s, e) in regions.items()]}) + "\n")
-        k = 12 if tier == "quick" else 1
+        k = 5 if tier == "quick" else 1
         g = vlib.tlc("Faults", f"INIT Init\nNEXT Next\nINVARIANT Emit\nCHECK_DEADLOCK FALSE\nCONSTANTS SampleK = {k}\n", f"C19-gen-{name}",
                      env={"REGIONS": regfile}, workers=2, timeout=600)
         if g.error:
@@ -124,8 +124,11 @@ def run(tier):
         for mm in [p for p in r.printed if isinstance(p, dict) and "mismatch" in p]:
             m = meta[mm["mismatch"]]
             ln = lines[mm["mismatch"]]
+            first = (m.get("msg", "") or "").split(" || ")[0].split("\nnote:")[0]
+            if "allocation of" in first:
+                first = "memory allocation failed"
             sig = {"family": "fault", "format": "csv" if m["base"] == "csv" else "parquet", "observed": ln["outcome"],
-                   "msg": vlib.re.sub(r"\d+", "#", m.get("msg", ""))[:150]}
+                   "msg": vlib.re.sub(r"\d+", "#", first)[:150]}
             if ln["outcome"] in ("timeout", "hang") or not sig["msg"]:
                 sig["plan"] = m["plan"].get("field") or m["plan"]["k"]
             rep.mismatch(sig, {"file": cases[mm["mismatch"]]["steps"][0]["sql"], "plan": m["plan"], "base": m["base"], "msg": m.get("msg")})
